@@ -73,6 +73,8 @@ type Upstream struct {
 
 	idAlias  uint32
 	wireConn *wire.ClientConn
+	// connGeneration is connStatus.Reconnects() at the time wireConn was obtained.
+	connGeneration uint64
 
 	sent   sentStorage
 	logger log.Logger
@@ -333,7 +335,7 @@ func (u *Upstream) run(isResume bool) error {
 	}
 	eg.Go(func() error {
 		u.connState.cond.L.Lock()
-		for !u.connState.IsWithoutLock(connStatusReconnecting) {
+		for u.connState.ReconnectsWithoutLock() == atomic.LoadUint64(&u.connGeneration) {
 			select {
 			case <-ctx.Done():
 				u.connState.cond.L.Unlock()
@@ -677,7 +679,7 @@ func (u *Upstream) processResult(ctx context.Context, result *message.UpstreamCh
 	return nil
 }
 
-func (u *Upstream) resume(newConn *wire.ClientConn) error {
+func (u *Upstream) resume(newConn *wire.ClientConn, generation uint64) error {
 	if u.isClosed() {
 		return fmt.Errorf("already closed upstream")
 	}
@@ -723,6 +725,7 @@ func (u *Upstream) resume(newConn *wire.ClientConn) error {
 	u.resCh = make(chan []*message.UpstreamChunkResult, 8)
 	u.idAlias = resp.AssignedStreamIDAlias
 	u.mu.Unlock()
+	atomic.StoreUint64(&u.connGeneration, generation)
 
 	u.eventDispatcher.addHandler(func() {
 		u.Config.ResumedEventHandler.OnUpstreamResumed(&UpstreamResumedEvent{
